@@ -190,6 +190,7 @@ func handleOpen(h *Handler, iq openIQ, e xmlstream.Encoder) error {
 		delete(l.expected, key)
 	}
 	l.eLock.Unlock()
+	verifhook.Yield("ibb.open.handoff", iq.Open.SID)
 	if ok {
 		select {
 		case expect.c <- conn:
